@@ -23,6 +23,7 @@ def run(chk, F):
         chk.guard("loop-progress", "parsers", lambda: k1.loop_progress(chk, F, res[1]))
         chk.guard("lexer-not-recursive", "gnu_units lexer", lambda: lexer_not_recursive(chk, F))
     chk.guard("cycle-guard", "Resolver::visit", lambda: L.visit_structure(chk, F))
+    chk.guard("cycle-guard", "load_defs", lambda: L.alias_cycle_guard(chk, F))
     chk.guard("errors-reported", "load_defs", lambda: L.errors_reported(chk, F))
     chk.guard("temporaries-cleared", "load_defs", lambda: shared_rules.temporaries_cleared(chk, F))
     chk.guard("definitions-only-for-loaded-units", "load_defs", lambda: L.definitions_only_for_loaded(chk, F))
